@@ -146,6 +146,8 @@ enum Expect {
     OutOfSync(u64),
     Timeout,
     InvalidDeadline,
+    /// process_query to the address of a mailbox that no longer exists (non-fatal)
+    BadQuery,
 }
 
 /// What the expansion of a phase says about the fault.
@@ -227,6 +229,7 @@ fn matches_expect(x: &Expect, got: &Option<ErrKind>) -> bool {
         (Expect::OutOfSync(l), Some(ErrKind::OutOfSync(g))) => l == g,
         (Expect::Timeout, Some(ErrKind::Timeout)) => true,
         (Expect::InvalidDeadline, Some(ErrKind::InvalidDeadline(_))) => true,
+        (Expect::BadQuery, Some(ErrKind::BadQuery)) => true,
         _ => false,
     }
 }
@@ -310,6 +313,7 @@ pub struct FInfo {
     pub post_kinds: usize,
     pub nonfatal: usize,
     pub usable_after_nonfatal: usize,
+    pub badquery: usize,
     pub tokens: i64,
     pub dropped_with_pending_sched: bool,
     pub dropped_stalled: bool,
@@ -365,6 +369,14 @@ fn exec_cmd(w: &mut World, cmd: &Cmd, eid: u64) -> (Option<ErrKind>, Option<u8>)
             let Some(addr) = w.addrs.get(*model as usize).cloned() else { return (None, None) };
             let m = tmsg(w, eid, *script, *ttl);
             (res_kind(&w.sim.process_event(Node::on_event, m, &addr)), None)
+        }
+        Cmd::ProcessQuery { model, script, ttl } if *model == u16::MAX => {
+            // a query to the address of a mailbox that was dropped: the documented BadQuery case
+            let mb: nexosim::simulation::Mailbox<Node> = nexosim::simulation::Mailbox::new();
+            let addr = mb.address();
+            drop(mb);
+            let m = tmsg(w, eid, *script, *ttl);
+            (res_kind(&w.sim.process_query(Node::on_query, m, &addr)), None)
         }
         Cmd::ProcessQuery { model, script, ttl } => {
             let Some(addr) = w.addrs.get(*model as usize).cloned() else { return (None, None) };
@@ -615,8 +627,10 @@ pub fn eval_fcase(c: &FCase, prop: &str) -> Result<FInfo, Verdict> {
         // simulation time of each injection (a forward step_until runs several slices)
         let mut inj_at: Vec<i64> = Vec::new();
         let mut expect_invalid = false;
+        let mut expect_badquery = false;
         match cmd {
             Cmd::ProcessEvent { model, script, ttl } => inj.push(Inj::Direct(*model, 1, RMsg { id: eid, script: *script, ttl: *ttl, via: 0 })),
+            Cmd::ProcessQuery { model, .. } if *model == u16::MAX => expect_badquery = true,
             Cmd::ProcessQuery { model, script, ttl } => inj.push(Inj::Direct(*model, 2, RMsg { id: eid, script: *script, ttl: *ttl, via: 0 })),
             Cmd::ProcessAction { src, script, ttl, .. } => inj.push(Inj::Source(*src, RMsg { id: eid, script: *script, ttl: *ttl, via: 0 })),
             Cmd::Sched { model, dl: Dl::Rel(d), script, ttl, .. } => {
@@ -708,7 +722,13 @@ pub fn eval_fcase(c: &FCase, prop: &str) -> Result<FInfo, Verdict> {
             return Ok(FInfo::default());
         }
         let nsync = recs.iter().filter(|r| matches!(r, Rec::Sync { .. })).count();
-        let mut x = if expect_invalid { Expect::InvalidDeadline } else { expectation(c, &b, &q, &e, false) };
+        let mut x = if expect_invalid {
+            Expect::InvalidDeadline
+        } else if expect_badquery {
+            Expect::BadQuery
+        } else {
+            expectation(c, &b, &q, &e, false)
+        };
         if let Some((k, l)) = lag {
             if syncs <= k && k < syncs + nsync {
                 x = Expect::OutOfSync(l);
@@ -755,6 +775,14 @@ pub fn eval_fcase(c: &FCase, prop: &str) -> Result<FInfo, Verdict> {
                         ));
                     }
                     info.usable_after_nonfatal += 1;
+                }
+            }
+            Expect::BadQuery => {
+                info.nonfatal += 1;
+                info.badquery += 1;
+                if t_after != t_before || recs.iter().any(|r| matches!(r, Rec::Begin { .. })) {
+                    drop_world(w, &shared);
+                    return Err(ffail(&["C11"], "bad-query-had-effects", format!("{:?} returned BadQuery but moved the time or ran model code", cmd)));
                 }
             }
             Expect::InvalidDeadline => {
@@ -855,16 +883,30 @@ pub fn fcase_strategy(exec: BoxedStrategy<Exec>, spin: bool) -> BoxedStrategy<FC
                     proptest::option::weighted(0.4, 0u8..8),
                     proptest::collection::vec((0u8..10, -6i64..0), 0..3),
                     proptest::collection::vec((0u8..10, 0u64..5), 0..3),
-                    proptest::option::weighted(0.25, (any::<u16>(), 0u16..4, 0u8..4, 1u8..3, 1u8..4, 0u8..3, 0u8..3)),
+                    proptest::option::weighted(0.25, (any::<u16>(), 0u16..4, 0u8..4, 1u8..3, 1u8..4, 0u8..3, 0u8..3, 0u8..2, any::<bool>())),
+                    proptest::option::weighted(0.3, (0u8..10, 0u16..2, 1u8..3)),
                 )
-                    .prop_map(move |(fault, post, drop_after, invalids, forwards, nested)| {
+                    .prop_map(move |(fault, post, drop_after, invalids, forwards, nested, badq)| {
                         let mut base = base.clone();
                         // co-simulation: some handler (or init) of some model builds, runs and
                         // drops an inner simulation
-                        if let Some((mx, script, pos, threads, models, events, pending)) = nested {
+                        if let Some((mx, script, pos, threads, models, events, pending, inner_fault, align)) = nested {
                             let nmod = base.bench.models.len();
-                            let m = &mut base.bench.models[pick_idx(mx, nmod)];
-                            let op = Op::Nested { threads, models, events, pending };
+                            // half of the time: in the very handler (or init) that the fault strikes, before it
+                            let (mut mi, mut script, mut pos) = (pick_idx(mx, nmod), script, pos);
+                            if align {
+                                match &fault {
+                                    Fault::Panic { model, script: fs, .. } | Fault::SelfQuery { model, script: fs, .. } => {
+                                        mi = *model as usize % nmod;
+                                        let k = base.bench.models[mi].scripts.len().max(1) as u16;
+                                        script = fs.map(|s| s % k).unwrap_or(u16::MAX);
+                                        pos = 0;
+                                    }
+                                    _ => {}
+                                }
+                            }
+                            let m = &mut base.bench.models[mi];
+                            let op = Op::Nested { threads, models, events, pending, inner_fault };
                             let ns = m.scripts.len();
                             if script as usize >= ns {
                                 let p = (pos as usize).min(m.init.len());
@@ -881,7 +923,12 @@ pub fn fcase_strategy(exec: BoxedStrategy<Exec>, spin: bool) -> BoxedStrategy<FC
                             let p = (pos as usize).min(base.cmds.len());
                             base.cmds.insert(p, Cmd::StepUntil(Dl::Rel(d)));
                         }
-                        // non-fatal errors: step_until into the past, at generated positions
+                        // non-fatal errors: a query to a dropped mailbox (BadQuery) ...
+                        if let Some((pos, script, ttl)) = badq {
+                            let p = (pos as usize).min(base.cmds.len());
+                            base.cmds.insert(p, Cmd::ProcessQuery { model: u16::MAX, script, ttl });
+                        }
+                        // ... and step_until into the past, at generated positions
                         for (pos, back) in invalids {
                             let p = (pos as usize).min(base.cmds.len());
                             base.cmds.insert(p, Cmd::StepUntil(Dl::Abs(base.start + back)));
@@ -950,8 +997,11 @@ impl SubCheck for FSub {
                 if i.fault_in_submodel {
                     cl.push("fault-attributed-to-sub-model");
                 }
-                if i.nonfatal > 0 {
+                if i.nonfatal > i.badquery {
                     cl.push("non-fatal-invalid-deadline");
+                }
+                if i.badquery > 0 {
+                    cl.push("non-fatal-bad-query");
                 }
                 if i.usable_after_nonfatal > 0 {
                     cl.push("ran-normally-after-non-fatal-error");
